@@ -23,6 +23,7 @@ EMPTY_TUP = z3.Const("EMPTY_TUP", TupS)          # ()
 
 # prefix sum over parallel lists (edges, weights): sum of the weights (1 when no weight list) of the first j hyperedges whose
 # canonical form is k -- a specification function defined by its fold axioms
+RDIV = z3.Function("rdiv", R, R, R)     # x / y, uninterpreted
 PSUM = z3.Function("psum", z3.ArraySort(I, TupS), B, z3.ArraySort(I, R), I, TupS, R)
 
 EMPTY_META = z3.Const("EMPTY_META", MetaS)
@@ -217,3 +218,21 @@ def all_axioms():
     for e in list(T.ELEM_TYPES.values()):
         out.update(collection_axioms(e))
     return out
+
+
+_sorted_fns = {}
+
+
+def sorted_fn(e):
+    """SORTED_<K>: set -> position -> element, the canonical (sorted) listing of a finite set; uninterpreted."""
+    key = e.name
+    if key not in _sorted_fns:
+        nm = "".join(ch if ch.isalnum() else "_" for ch in e.name)
+        _sorted_fns[key] = (z3.Function("sorted_" + nm, z3.ArraySort(e.sort(), B), z3.ArraySort(I, e.sort())),
+                            z3.Function("sortedidx_" + nm, z3.ArraySort(e.sort(), B), e.sort(), I))
+    return _sorted_fns[key][0]
+
+
+def sorted_idx_fn(e):
+    sorted_fn(e)
+    return _sorted_fns[e.name][1]
